@@ -54,7 +54,9 @@ def gen_case(rng, tier, idx):
     ha = rng.random() < 0.2
     fill = (tf is not None or rng.random() < 0.5) and rng.random() < 0.3 and not ha
     n = rng.randint(40, 160)
-    rows = streams.make_rows(rng, n, rng.choice(["walk", "walk", "flat_runs", "spiky", "zero_vol"]), step, mode, tf_s, max_gap_buckets=8)
+    if fill and tf is None:
+        mode = "gaps"  # Hexital-level fill without a Hexital-level timeframe only matters to member timeframes, and only across gaps
+    rows = streams.make_rows(rng, n, rng.choice(["walk", "walk", "flat_runs", "spiky", "zero_vol"]), step, mode, tf_s or unit * 3, max_gap_buckets=8)
     members = []
     for _ in range(rng.choice([1, 1, 2, 2, 3, 4, 5])):
         c = configs.rand_config(rng, max_period=9, allow_input=rng.random() < 0.5)
